@@ -3,8 +3,6 @@
    1 = exactly the message printed (unmodified, one line), 2 = anything else. *)
 From Coq Require Import List ZArith Bool Arith.
 From TR Require Export model.LogLimiter corr.Common.
-From Coq Require Import String Ascii.
-From TR Require Import model.ThrExt.
 Import ListNotations.
 Open Scope Z_scope.
 
@@ -13,25 +11,11 @@ Record case := mkCase { c_interval : Z; c_hist : list (Z * Z); c_obs : list Z }.
 Definition bits_of_obs (o : list Z) : list bool := map (fun x => negb (x =? 0)) o.
 Definition obs_of_bits (b : list bool) : list Z := map (fun x : bool => if x then 1 else 0) b.
 
-(* the translated loglimiter.go run on the same history; message k is the string of k 'm's *)
-Fixpoint mname (n : nat) : string := match n with O => EmptyString | S k => String "m"%char (mname k) end.
-Definition enc (m : Z) : string := mname (Z.to_nat m).
-Definition source_obs (c : case) : list Z :=
-  map (fun om => match fst om with
-                 | [] => 0
-                 | [l] => if String.eqb l (enc (fst (snd om))) then 1 else 2
-                 | _ => 2
-                 end)
-      (combine (src_lrun enc (ll_init (c_interval c)) (c_hist c)) (c_hist c)).
-
 Definition check (c : case) : Z :=
   let mdl := lrun (c_interval c) linit (c_hist c) in
-  let src := source_obs c in
   code (zlist_eqb (obs_of_bits mdl) (c_obs c))
        (spec_log (c_interval c) (c_hist c) (bits_of_obs (c_obs c)) && forallb (fun x => x <? 2) (c_obs c))
-       (spec_log (c_interval c) (c_hist c) mdl)
-  + code_src (zlist_eqb src (obs_of_bits mdl))
-             (spec_log (c_interval c) (c_hist c) (bits_of_obs src) && forallb (fun x => x <? 2) src).
+       (spec_log (c_interval c) (c_hist c) mdl).
 
 Definition explain (c : case) :=
   let mdl := obs_of_bits (lrun (c_interval c) linit (c_hist c)) in
